@@ -1,8 +1,19 @@
 """C20 — server lifecycle; this module currently covers the transfer half (resources of every transfer ending)."""
 import tftp_common as T
 from props import tftp_base as B
-from props.tftp_base import env_of, worker_setup  # noqa
 from core import Judgement
+
+SCHED_ENV = "lifesched"
+
+
+def env_of(case):
+    return SCHED_ENV if case.get("kind") == "lifecycle_sched" else B.env_of(case)
+
+
+def worker_setup(env):
+    if env == SCHED_ENV:
+        return None     # the stdlib must NOT be patched by the network simulation in this worker
+    return B.worker_setup(env)
 
 ID = "C20"
 MODULE = "props.c20"
@@ -21,7 +32,13 @@ TRUSTED_BASE = T.TRUSTED_BASE
 ASSUMPTIONS = T.ASSUMPTIONS
 RULE = ("all transfer endings of the simulation (completed, client ERROR, invalid packet, retries exhausted, block-counter "
         "overflow, handler TftpError, handler exception, stream read fault); non-trivial = a transfer thread ran; "
-        "distinct by SHA-1 of the case")
+        "distinct by SHA-1 of the case; TFTP lifecycle: all sequential start/stop/request histories up to length 4 (6), "
+        "concurrent calls with random delays, and the REAL start()/stop()/_run under the deterministic scheduler "
+        "(sched.DynScheduler: every line of the three methods is a pre-emption point, the request-port thread is a "
+        "scheduled worker, the socket is a stub): for pairs and triples of caller programs over {start, stop, "
+        "start;stop, stop;start, start;start, stop;stop, start;stop;start} every single pre-emption (step x target "
+        "thread) and random 2-4 pre-emption schedules; each run is replayed event by event (critical sections, "
+        "request-port thread seeing the shutdown request / ending) on the Lean model's `step`")
 BUDGET_S = {"quick": 60, "thorough": 600}
 
 
@@ -35,14 +52,31 @@ _transfer_judge = B.make_judge(required=["c20"], project=T.proj_resources, extra
 
 
 def run_impl(case, env):
+    if case.get("kind") == "lifecycle_sched":
+        import life_sched_adapter
+        return life_sched_adapter.run_case({k: v for k, v in case.items() if not k.startswith("_")})
     import tftp_adapter
     if case.get("kind", "").startswith("lifecycle"):
         return tftp_adapter.run_lifecycle(case)
     return tftp_adapter.run_session(case)
 
 
+def _sched_outcomes(obs):
+    return obs["sweep"] if "sweep" in obs else [obs]
+
+
 def model_requests(case, obs):
     k = case.get("kind", "")
+    if k == "lifecycle_sched":
+        reqs = []
+        for o in _sched_outcomes(obs):
+            f = o.get("final") or {"running": False, "shutdown_requested": False, "thread_alive": False,
+                                   "socket_open": False}
+            reqs.append({"op": "lifecycle.replay", "threads": case["threads"],
+                         "events": [{"k": e["k"], "t": e["t"]} for e in o.get("events", [])]})
+            reqs.append(dict({"op": "lifecycle.end"}, **{x: f[x] for x in ("running", "shutdown_requested",
+                                                                          "thread_alive", "socket_open")}))
+        return reqs
     if k == "lifecycle_seq":
         return [{"op": "lifecycle.seq", "ops": case["ops"]}]
     if k == "lifecycle_conc":
@@ -52,8 +86,70 @@ def model_requests(case, obs):
     return B.model_requests(case, obs)
 
 
+FLAGS = ("running", "shutdown_requested", "thread_alive", "socket_open")
+
+
+def _judge_sched_one(case, o, replay, end):
+    """one schedule of the real code: (spec_ok, clause, agree, detail)"""
+    sub = {"threads": case["threads"], "preempt": o.get("preempt"), "order": case.get("order")}
+    if o.get("timed_out"):
+        return True, None, False, {"infrastructure": "scheduler run timed out", "schedule": sub}
+    if o.get("deadlock"):
+        return False, "deadlock", False, {"schedule": sub, "events": o["events"][-6:]}
+    if o.get("livelock"):
+        return False, "never_ends", False, {"schedule": sub, "events": o["events"][-6:]}
+    bad = [r for rs in o["results"] for r in rs if r != "ok"]
+    if bad or o.get("errors"):
+        return False, "lifecycle_call_raised", False, {"schedule": sub, "results": o["results"], "errors": o["errors"]}
+    f = o["final"]
+    if not end["consistent"]:
+        return False, "inconsistent_end_state", False, {"schedule": sub, "final": f, "events": o["events"][-8:]}
+    if f["sockets_open"] > 1 or f["threads_alive"] > 1:
+        return False, "leaked_socket_or_thread", False, {"schedule": sub, "final": f}
+    for e in o["events"]:
+        if e["state"]["sockets_open"] > 1 or e["state"]["threads_alive"] > 1:
+            return False, "two_request_port_threads", False, {"schedule": sub, "event": e}
+    # correspondence with the model, event by event
+    window = False
+    for i, (e, m) in enumerate(zip(o["events"], replay["steps"])):
+        if e["k"] == "srv_sees_shutdown":
+            window = True
+        if e["k"] == "srv_end":
+            window = False
+        keys = FLAGS[:2] if window else FLAGS
+        if not m["enabled"] or any(e["state"][x] != m["state"][x] for x in keys):
+            return True, None, False, {"schedule": sub, "event_index": i, "event": e, "model": m}
+    if not replay["all_done"] or any(f[x] != replay["final"][x] for x in FLAGS):
+        return True, None, False, {"schedule": sub, "final": f, "model_final": replay["final"],
+                                   "model_all_done": replay["all_done"]}
+    return True, None, True, None
+
+
 def judge(case, obs, resps):
     k = case.get("kind", "")
+    if k == "lifecycle_sched":
+        if "harness_exception" in obs or any("err" in r for r in resps):
+            return Judgement(case, True, False, {"infrastructure": obs.get("harness_exception") or
+                                                 [r for r in resps if "err" in r][:1]}, kind="infra", nontrivial=False)
+        outs = _sched_outcomes(obs)
+        worst = None
+        for i, o in enumerate(outs):
+            r = _judge_sched_one(case, o, resps[2 * i]["ok"], resps[2 * i + 1]["ok"])
+            if not r[0]:
+                worst = r
+                break
+            if not r[2] and worst is None:
+                worst = r
+        style = "sweep" if "sweep" in obs else "single"
+        if worst is None:
+            return Judgement(case, True, True, None, kind=f"lifecycle_sched/{style}",
+                             nontrivial=sum(len(t) for t in case["threads"]) >= 2)
+        spec_ok, clause, agree, detail = worst
+        if "sweep" in case and detail and isinstance(detail.get("schedule"), dict):
+            # the replay is the single failing schedule, not the whole sweep
+            case = dict({k_: v for k_, v in case.items() if k_ != "sweep"}, preempt=detail["schedule"]["preempt"])
+        return Judgement(case, spec_ok, agree, detail, kind=f"lifecycle_sched/{style}", nontrivial=True,
+                         failed_clause=clause)
     if not k.startswith("lifecycle"):
         return _transfer_judge(case, obs, resps)
     if "harness_exception" in obs or any("err" in r for r in resps):
@@ -93,6 +189,17 @@ def judge(case, obs, resps):
 
 def shrink(case):
     k = case.get("kind", "")
+    if k == "lifecycle_sched":
+        th = case["threads"]
+        base = {k_: v for k_, v in case.items() if k_ != "sweep"}
+        for i in range(len(th)):
+            if len(th[i]) > 1:
+                for j in range(len(th[i])):
+                    d = dict(base); d["threads"] = th[:i] + [th[i][:j] + th[i][j + 1:]] + th[i + 1:]; yield d
+        pre = case.get("preempt") or []
+        for i in range(len(pre)):
+            d = dict(base); d["preempt"] = pre[:i] + pre[i + 1:]; yield d
+        return
     if k == "lifecycle_seq":
         ops = case["ops"]
         for i in range(len(ops)):
@@ -136,8 +243,44 @@ def gen_lifecycle(rng, tier, mult=1):
                "_meta": {"style": "lifecycle"}}
 
 
+PROGRAMS = [["start"], ["stop"], ["start", "stop"], ["stop", "start"], ["start", "start"], ["stop", "stop"],
+            ["start", "stop", "start"]]
+
+
+def gen_lifecycle_sched(rng, tier, mult=1):
+    """the real start()/stop()/_run under the deterministic scheduler: for each pair (triple) of caller programs
+    every single pre-emption (every line of the three methods x every other thread, in chunks), and random pairs
+    / triples of pre-emptions"""
+    import itertools
+    chunks = 4
+    pairs = list(itertools.combinations_with_replacement(range(len(PROGRAMS)), 2))
+    if tier == "quick":
+        rng.shuffle(pairs)
+        pairs = [(2, 3), (0, 1), (2, 2), (3, 3), (0, 2)] + [p for p in pairs if p not in ((2, 3), (0, 1), (2, 2), (3, 3), (0, 2))][:3]
+    for a, b in pairs:
+        for order in ([0, 1], [1, 0]):
+            for k in range(chunks):
+                yield {"kind": "lifecycle_sched", "threads": [PROGRAMS[a], PROGRAMS[b]], "order": order,
+                       "sweep": [k, chunks], "servers": 2, "_meta": {"style": "lifecycle-sched"}}
+    triples = [(2, 3, 1), (0, 1, 2), (2, 2, 3)] if tier == "quick" else \
+        [tuple(rng.randrange(len(PROGRAMS)) for _ in range(3)) for _ in range(30 * mult)]
+    for t in triples:
+        for k in range(chunks):
+            yield {"kind": "lifecycle_sched", "threads": [PROGRAMS[x] for x in t], "order": [0, 1, 2],
+                   "sweep": [k, chunks], "servers": 2, "_meta": {"style": "lifecycle-sched"}}
+    for i in range((150 if tier == "quick" else 6000) * mult):
+        nt = rng.choice([2, 2, 3])
+        th = [PROGRAMS[rng.randrange(len(PROGRAMS))] for _ in range(nt)]
+        order = list(range(nt))
+        rng.shuffle(order)
+        yield {"kind": "lifecycle_sched", "threads": th, "order": order,
+               "preempt_frac": sorted([rng.random(), rng.randrange(nt + 2)] for _ in range(rng.choice([2, 3, 4]))),
+               "_meta": {"style": "lifecycle-sched"}}
+
+
 def gen(rng, tier, mult=1):
     yield from gen_lifecycle(rng, tier, mult)
+    yield from gen_lifecycle_sched(rng, tier, mult)
     n = (1000 if tier == "quick" else 15000) * mult
     for i in range(n):
         yield T.gen_transfer_case(rng, script_style=["abort", "silent", "clean", "faulty", "edge", "random"][i % 6],
